@@ -38,6 +38,12 @@ CHECKS.update({
  'C19': dict(cat='other', text="PARTIAL. Proved: only the dtype clause, on a promotion-lattice model (results of ops over dimensioned float-d leaves plus weak leaves have dtype d). The numeric clause (float32 agrees with float64 to single-precision accuracy scaled by conditioning, finite) is NOT a theorem: it is decided by executing the same Lean definitions in Float32 and Float against the float32 implementation and its float64 twin, plus result-dtype checks.",
              tech="Lean 4 proof (dtype clause) + Float32/Float model correspondence (numeric clause)", ref="DESIGN.md §5 C19, §8.1"),
 })
+CHECKS.update({
+ 'C13': dict(cat='proof', text="PARTIAL (theorem is about a storage-trace machine). Lean: traceSafe_sound / values_unchanged (a trace with no write to an owned, non-whitelisted storage leaves those storages unchanged for ALL tensor values), closure under concatenation and arbitrary call histories, repeat determinism, exactness of the check. Translator: on every run the op traces of ~480 (configuration, mode, call, branch atom, input kind) cases are extracted from the running code (TorchFunctionMode) and written to Generated/C13.lean, one `traceSafe … = true := by decide` obligation per distinct skeleton; independently, bitwise + _version snapshots of caller tensors and the whole state dict are compared with the verdicts. A code path never executed by the generator is not covered.",
+             tech="Lean 4 proof on a trace model + run-time translator of op traces + bitwise snapshots", ref="DESIGN.md §5 C13, §8.3"),
+ 'C15': dict(cat='proof', text="PARTIAL (theorem is about a state-dict inventory model). Lean: reload_sound / reload_same_function / reload_after_history (an inventory whose function-determining entries are persisted, constructor-determined or aliases reloads to the same evaluation, for every history of value updates), exactness. Translator: on every run the inventory of every configuration with constructor-time randomness is extracted from the running modules and written to Generated/C15.lean (one `reloadSafe … = true := by decide` obligation each); behavioural differential: save under seed A, load into an instance built under seed B, forward/inverse/log_prob compared bitwise.",
+             tech="Lean 4 proof on an inventory model + run-time translator + bitwise reload differential", ref="DESIGN.md §5 C15, §8.3"),
+})
 NOT_YET = {}
 
 def main():
